@@ -5,7 +5,7 @@ from pyvc.engine import harness
 from pyvc import sym
 from pyvc.sym import SBytes
 from pyvc.interp import SObj, PyExc, exc_class
-from pyvc.libmodels import MBytesIO, _M
+from pyvc.libmodels import MBytesIO, _M, _bio_method
 from spec import cser
 from spec import native_protocol as NP
 
@@ -22,7 +22,6 @@ EXPLANATION = 'body == spec layout postconditions on the real write_* primitives
 PR = 'cassandra.protocol.'
 VERSIONS = (1, 2, 3, 4, 5, 6, 0x41, 0x42)
 TIER = os.environ.get('VERIF_TIER', 'quick')
-KF_V1 = 'KF-C03-v1-query-carries-a-flags-byte'
 
 
 def cat(*parts):
@@ -31,6 +30,13 @@ def cat(*parts):
         p = sym.lift(p) if not isinstance(p, (bytes, SBytes)) else p
         out = p if out is None else (sym.lift(out) + p)
     return out if out is not None else b''
+
+
+def B(vc, name, maxlen=2 ** 31 - 1, minlen=0):
+    """a symbolic byte string of any length the notation can carry ([bytes]/[long string]: int32 length; [string]/[short bytes]: uint16)"""
+    b = vc.bytes(name)
+    vc.assume(sym.and_(b.length() >= minlen, b.length() <= maxlen))
+    return b
 
 
 def s_short(x):
@@ -76,7 +82,8 @@ def same(vc, name, got, want):
 
 
 @harness('C03', 'primitives', functions=[PR + n for n in ('write_byte', 'write_short', 'write_int', 'write_uint', 'write_long', 'write_string', 'write_longstring',
-                                                          'write_value', 'write_stringlist', 'write_stringmap', 'write_bytesmap', 'write_consistency_level')])
+                                                          'write_value', 'write_stringlist', 'write_stringmap', 'write_bytesmap', 'write_consistency_level')],
+         native='contracts.native.c03:replay')
 def primitives(vc):
     """ensures every notation writer appends exactly the spec encoding: [byte] [short] [int] [long] big-endian, [string] = [short] n + n
     bytes, [long string]/[bytes] = [int] n + n bytes, [value] with -1 for null and -2 for 'not set', lists and maps = [short] count +
@@ -84,18 +91,21 @@ def primitives(vc):
     from cassandra.query import UNSET_VALUE
     b, sh, i, u, lg = vc.int('byte'), vc.int('short'), vc.int('int'), vc.int('uint'), vc.int('long')
     vc.assume(sym.and_(b >= 0, b <= 255, sh >= 0, sh <= 65535, cser.in_signed_range(i, 4), cser.in_unsigned_range(u, 4), cser.in_signed_range(lg, 8)))
-    data = vc.bytes('data')
+    data = B(vc, 'data')
     vc.assume(data.length() <= 65535)
     for fn, arg, want in (('write_byte', b, cser.be_unsigned(b, 1)), ('write_short', sh, s_short(sh)), ('write_consistency_level', sh, s_short(sh)),
                           ('write_int', i, s_int(i)), ('write_uint', u, s_uint(u)), ('write_long', lg, s_long(lg)),
-                          ('write_string', data, s_short_bytes(data)), ('write_string', 'ks_1', s_short(4) + b'ks_1'),
+                          ('write_string', data, s_short_bytes(data)), ('write_string', 'ks_1', s_short(4) + b'ks_1'), ('write_string', KS, s_short(5) + KS.encode('utf8')),
+                          ('write_longstring', 'SELECT \u00e9', s_int(9) + 'SELECT \u00e9'.encode('utf8')),
                           ('write_longstring', data, s_bytes(data)), ('write_value', data, s_bytes(data)), ('write_value', None, s_int(-1)),
                           ('write_value', UNSET_VALUE, s_int(-2)),
                           ('write_stringlist', ['a', 'bc'], s_short(2) + s_short(1) + b'a' + s_short(2) + b'bc'),
                           ('write_stringmap', {'K': 'v'}, s_short(1) + s_short(1) + b'K' + s_short(1) + b'v')):
         f = MBytesIO(b'prefix', 6)
-        vc.call(PR + fn, f, arg)
-        same(vc, '%s/appends-the-spec-encoding' % fn, f.content, cat(b'prefix', want))
+        k, r = vc.call_catch(PR + fn, f, arg)
+        vc.check('%s/accepts-every-value-of-the-notation' % fn, k == 'ok')
+        if k == 'ok':
+            same(vc, '%s/appends-the-spec-encoding' % fn, f.content, cat(b'prefix', want))
     f = MBytesIO(b'', 0)
     vc.call(PR + 'write_bytesmap', f, {'k': data, 'n': None})
     same(vc, 'write_bytesmap/appends-the-spec-encoding', f.content, cat(s_short(2), s_short(1), b'k', s_bytes(data), s_short(1), b'n', s_int(-1)))
@@ -112,7 +122,7 @@ def header(vc):
     pv = vc.choice('protocol_version', list(VERSIONS))
     stream = vc.int('stream_id')
     vc.assume(sym.and_(stream >= -1, stream <= (127 if pv < 3 else 32767)))
-    body = vc.bytes('message_body')
+    body = B(vc, 'message_body', 2 ** 28)     # the protocol's maximum frame body is 256 MB
     tracing = vc.choice('tracing', [False, True])
     beta = vc.choice('allow_beta', [False, True])
     payload = vc.choice('custom_payload', [None, 'one-entry'])
@@ -124,9 +134,9 @@ def header(vc):
         custom_payload = pl
 
         def send_body(self_, f, v):
-            f.write(body)
+            _bio_method(vc.ctx, f, 'write')(body)
     Msg.tracing = tracing
-    compressed = vc.bytes('compressed_body')
+    compressed = B(vc, 'compressed_body', 2 ** 28)
     compressor = _M(lambda b: compressed, 'compressor') if comp else None
     kind, r = vc.call_catch(_ProtocolHandler.__dict__['encode_message'].__func__, _ProtocolHandler, Msg(), stream, pv, compressor, beta)
     if payload and pv < 4:
@@ -146,41 +156,51 @@ def header(vc):
 
 def _options(vc, pv, kind):
     """the option combination requested by the session layer (presence is a choice, values are symbolic)"""
+    from cassandra.query import UNSET_VALUE
     o = {}
     cl = vc.int('consistency')
     vc.assume(sym.and_(cl >= 0, cl <= 10))
     o['consistency'] = cl
-    nvals = vc.choice('values', [None, 0, 1, 2]) if kind != 'EXECUTE' else vc.choice('values', [0, 1, 2])
-    if nvals is None:
-        o['values'] = None
+    wide = TIER != 'quick'
+    if wide:
+        nvals = vc.choice('values', [None, 0, 1, 2]) if kind != 'EXECUTE' else vc.choice('values', [0, 1, 2])
+        if nvals is None:
+            o['values'] = None
+        else:
+            vals = []
+            for i in range(nvals):
+                k = vc.choice('value%d' % i, ['bytes', 'null', 'unset'])
+                vals.append(B(vc, 'value%d_bytes' % i) if k == 'bytes' else (None if k == 'null' else UNSET_VALUE))
+            o['values'] = vals
     else:
-        from cassandra.query import UNSET_VALUE
-        vals = []
-        for i in range(nvals):
-            k = vc.choice('value%d' % i, ['bytes', 'null', 'unset'])
-            vals.append(vc.bytes('value%d_bytes' % i) if k == 'bytes' else (None if k == 'null' else UNSET_VALUE))
-        o['values'] = vals
+        shape = vc.choice('values', ([None] if kind != 'EXECUTE' else []) + ['empty', 'bytes+null', 'unset+bytes'])
+        o['values'] = None if shape is None else ([] if shape == 'empty' else ([B(vc, 'value0_bytes'), None] if shape == 'bytes+null' else [UNSET_VALUE, B(vc, 'value1_bytes')]))
     if vc.choice('serial_consistency', [False, True]):
-        o['serial_consistency'] = vc.choice('serial_cl', [8, 9])
+        scl = vc.int('serial_cl')
+        vc.assume(sym.or_(scl == 8, scl == 9))
+        o['serial_consistency'] = scl
     if vc.choice('page_size', [False, True]):
         fs = vc.int('fetch_size')
         vc.assume(sym.and_(fs >= 1, fs <= 2 ** 31 - 1))
         o['fetch_size'] = fs
     if vc.choice('paging_state', [False, True]):
-        ps = vc.bytes('paging_state_bytes')
-        vc.assume(ps.length() >= 1)
-        o['paging_state'] = ps
+        o['paging_state'] = B(vc, 'paging_state_bytes', minlen=1)
     if pv >= 3 and vc.choice('timestamp', [False, True]):
         ts = vc.int('timestamp_us')
         vc.assume(cser.in_signed_range(ts, 8))
         o['timestamp'] = ts
-    if kind == 'QUERY' and vc.choice('keyspace', [False, True]):
-        o['keyspace'] = 'ks_1'
+    if kind == 'QUERY':
+        ks = vc.choice('keyspace', [None, KS])
+        if ks is not None:
+            o['keyspace'] = ks
     if vc.choice('continuous_paging', [False, True]):
         o['continuous'] = (vc.int('max_pages'), vc.int('max_pages_per_second'), vc.int('max_queue_size'))
         for x in o['continuous']:
             vc.assume(cser.in_signed_range(x, 4))
     return o
+
+
+KS = 'ks_\u00e9'        # a keyspace name whose utf-8 length differs from its character count
 
 
 def _spec_query_params(pv, o):
@@ -210,7 +230,8 @@ def _spec_query_params(pv, o):
 
 def _must_reject(pv, o, kind):
     return ('keyspace' in o and not NP.has_keyspace(pv)) or ('continuous' in o and not NP.continuous_paging(pv)) or \
-        (pv == 1 and ('serial_consistency' in o or 'fetch_size' in o or 'paging_state' in o))
+        (pv == 1 and ('serial_consistency' in o or 'fetch_size' in o or 'paging_state' in o)) or \
+        (pv == 1 and kind == 'QUERY' and o['values'] is not None)       # a v1 QUERY cannot carry values
 
 
 class _CP(object):
@@ -218,23 +239,21 @@ class _CP(object):
         self.max_pages, self.max_pages_per_second, self.max_queue_size = t
 
 
-def _mk_query_like(kind):
-    @harness('C03', kind, functions=[PR + '_QueryMessage._write_query_params', PR + '_QueryMessage._write_paging_options', PR + kind.capitalize() + 'Message.send_body'] +
+def _mk_query_like(kind, pv):
+    @harness('C03', '%s-v%#x' % (kind, pv), functions=[PR + '_QueryMessage._write_query_params', PR + '_QueryMessage._write_paging_options', PR + kind.capitalize() + 'Message.send_body'] +
              ([PR + 'ExecuteMessage._write_query_params'] if kind == 'EXECUTE' else []), native='contracts.native.c03:replay')
     def h(vc):
         from cassandra import protocol, UnsupportedOperation
-        pv = vc.choice('protocol_version', list(VERSIONS))
         o = _options(vc, pv, kind)
         cp = _CP(o['continuous']) if 'continuous' in o else None
         common = dict(consistency_level=o['consistency'], serial_consistency_level=o.get('serial_consistency'), fetch_size=o.get('fetch_size'),
                       paging_state=o.get('paging_state'), timestamp=o.get('timestamp'), continuous_paging_options=cp)
         if kind == 'QUERY':
-            text = vc.bytes('query_text')
+            text = B(vc, 'query_text')
             msg = vc.obj(protocol.QueryMessage, query=text, query_params=o['values'], skip_meta=False, keyspace=o.get('keyspace'), **common)
             head = s_bytes(text)
         else:
-            qid, mid = vc.bytes('query_id'), vc.bytes('result_metadata_id')
-            vc.assume(sym.and_(qid.length() <= 65535, mid.length() <= 65535))
+            qid, mid = B(vc, 'query_id', 65535), B(vc, 'result_metadata_id', 65535)
             msg = vc.obj(protocol.ExecuteMessage, query_id=qid, result_metadata_id=mid, query_params=o['values'], skip_meta=False, keyspace=None, **common)
             head = cat(s_short_bytes(qid), s_short_bytes(mid)) if NP.has_result_metadata_id(pv) else s_short_bytes(qid)
         f = MBytesIO(b'', 0)
@@ -250,77 +269,103 @@ def _mk_query_like(kind):
             same(vc, 'v1/body-is-id-values-consistency', f.content, want)
         elif pv == 1:
             # protocol v1: <query><consistency>, no flags byte
-            same(vc, 'KF:%s/v1-body-is-query-and-consistency-only' % KF_V1, f.content, cat(head, s_short(o['consistency'])))
+            same(vc, 'v1/body-is-query-and-consistency-only', f.content, cat(head, s_short(o['consistency'])))
         else:
             same(vc, 'post/body-is-exactly-the-spec-layout-for-the-requested-options', f.content, cat(head, _spec_query_params(pv, o)))
-    h.__doc__ = ('for every protocol version, every presence combination of values (null / unset / bytes), page size, paging state, serial consistency, client timestamp, '
+            if pv == 4 and kind == 'QUERY':
+                vc.must_fail('selfcheck/flags-are-an-int-on-v4', sym.lift(f.content) == sym.lift(cat(head, _spec_query_params(5, o))))
+    h.__doc__ = ('protocol version %#x, every presence combination of values (null / unset / bytes), page size, paging state, serial consistency, client timestamp, '
                  'per-request keyspace, continuous paging, with symbolic field values: ensures the %s body is exactly the spec layout (flags width, bit per option, field order); '
-                 'an option the version cannot carry is rejected with UnsupportedOperation, never dropped' % kind)
+                 'an option the version cannot carry is rejected with UnsupportedOperation, never dropped' % (pv, kind))
     return h
 
 
-_mk_query_like('QUERY')
-_mk_query_like('EXECUTE')
+for _pv in VERSIONS:
+    _mk_query_like('QUERY', _pv)
+    _mk_query_like('EXECUTE', _pv)
 
 
 @harness('C03', 'PREPARE', functions=[PR + 'PrepareMessage.send_body'], native='contracts.native.c03:replay')
 def prepare(vc):
-    """ensures PREPARE is <query> (+ <flags>[<keyspace>] on versions with prepare flags); a keyspace on other versions is rejected"""
+    """ensures PREPARE is <query> (+ <flags>[<keyspace>] on versions with prepare flags, flag 0x01 exactly when the keyspace field follows); a
+    keyspace on other versions is rejected"""
     from cassandra import protocol, UnsupportedOperation
     pv = vc.choice('protocol_version', list(VERSIONS))
-    text = vc.bytes('query_text')
-    ks = 'ks_1' if vc.choice('keyspace', [False, True]) else None
+    text = B(vc, 'query_text')
+    ks = vc.choice('keyspace', [None, KS, ''])
     msg = vc.obj(protocol.PrepareMessage, query=text, keyspace=ks)
     f = MBytesIO(b'', 0)
     k, r = vc.call_catch(PR + 'PrepareMessage.send_body', msg, f, pv)
     if ks and not NP.has_keyspace(pv):
         vc.check('keyspace/rejected-not-dropped', k == 'exc' and issubclass(exc_class(r), UnsupportedOperation))
         return
+    if ks == '':
+        # an empty name is not a keyspace: either form is acceptable as long as flag and field agree (or it is rejected)
+        forms = [cat(s_bytes(text), *([s_uint(0)] if NP.has_keyspace(pv) else [])), cat(s_bytes(text), s_uint(1), s_string(''))] if NP.has_keyspace(pv) else [s_bytes(text)]
+        vc.check('empty-keyspace/flag-and-field-agree', k == 'exc' or sym.or_(*[sym.lift(f.content) == sym.lift(w) for w in forms]))
+        return
     want = cat(s_bytes(text), *(([s_uint(1 if ks else 0)] + ([s_string(ks)] if ks else [])) if NP.has_keyspace(pv) else []))
     vc.check('post/encodes', k == 'ok')
     same(vc, 'post/body-is-the-spec-layout', f.content, want)
 
 
-@harness('C03', 'BATCH', functions=[PR + 'BatchMessage.send_body'], native='contracts.native.c03:replay')
-def batch(vc):
-    """ensures BATCH is <type><n><query_1>...<query_n><consistency>[<flags>[<serial_consistency>][<timestamp>][<keyspace>]] with each
-    entry <kind><string or id><n><value_1>...; flags only from v3, [int] flags from v5"""
-    from cassandra import protocol, UnsupportedOperation
-    from cassandra.query import BatchType
-    pv = vc.choice('protocol_version', [2, 3, 4, 5, 6, 0x41, 0x42])
-    n = vc.choice('entries', [0, 1, 2])
-    qs, parts = [], []
-    for i in range(n):
-        prepared = vc.choice('entry%d_prepared' % i, [False, True])
-        ident = vc.bytes('entry%d_text_or_id' % i)
-        vc.assume(ident.length() <= 65535)
-        params = [vc.bytes('entry%d_value' % i)] if vc.choice('entry%d_values' % i, [0, 1]) else []
-        qs.append((prepared, ident, params))
-        parts += [bytes([1 if prepared else 0]), s_short_bytes(ident) if prepared else s_bytes(ident), s_short(len(params))] + [s_value(p) for p in params]
-    cl = vc.int('consistency')
-    vc.assume(sym.and_(cl >= 0, cl <= 10))
-    serial = vc.choice('serial_cl', [None, 8, 9])
-    ts = None
-    if pv >= 3 and vc.choice('timestamp', [False, True]):
-        ts = vc.int('timestamp_us')
-        vc.assume(cser.in_signed_range(ts, 8))
-    ks = 'ks_1' if (NP.has_keyspace(pv) or pv >= 3) and vc.choice('keyspace', [False, True]) else None
-    if pv < 3 and serial:
-        return          # the session layer cannot send a serial consistency with a v2 batch (no flags in v2): outside the contract
-    btype = vc.choice('batch_type', [BatchType.LOGGED, BatchType.UNLOGGED, BatchType.COUNTER])
-    msg = vc.obj(protocol.BatchMessage, batch_type=btype, queries=qs, consistency_level=cl, serial_consistency_level=serial, timestamp=ts, keyspace=ks)
-    f = MBytesIO(b'', 0)
-    k, r = vc.call_catch(PR + 'BatchMessage.send_body', msg, f, pv)
-    if ks and not NP.has_keyspace(pv):
-        vc.check('keyspace/rejected-not-dropped', k == 'exc' and issubclass(exc_class(r), UnsupportedOperation))
-        return
-    vc.check('post/encodes', k == 'ok')
-    tail = [s_short(cl)]
-    if pv >= 3:
-        flags = (0x10 if serial else 0) | (0x20 if ts is not None else 0) | (0x80 if ks else 0)
-        tail.append(s_int(flags) if NP.int_flags(pv) else bytes([flags]))
-        tail += ([s_short(serial)] if serial else []) + ([s_long(ts)] if ts is not None else []) + ([s_string(ks)] if ks else [])
-    same(vc, 'post/body-is-the-spec-layout', f.content, cat(bytes([btype.value]), s_short(n), *(parts + tail)))
+class _BT(object):
+    def __init__(self, v):
+        self.value = v
+
+
+def _mk_batch(pv):
+    @harness('C03', 'BATCH-v%#x' % pv, functions=[PR + 'BatchMessage.send_body'], native='contracts.native.c03:replay')
+    def batch(vc):
+        from cassandra import protocol, UnsupportedOperation
+        n = vc.choice('entries', [0, 1, 2])
+        qs, parts = [], []
+        for i in range(n):
+            prepared = vc.choice('entry%d_prepared' % i, [False, True])
+            ident = B(vc, 'entry%d_text_or_id' % i, 65535 if prepared else 2 ** 31 - 1)
+            params = [B(vc, 'entry%d_value' % i)] if vc.choice('entry%d_values' % i, [0, 1]) else []
+            qs.append((prepared, ident, params))
+            parts += [bytes([1 if prepared else 0]), s_short_bytes(ident) if prepared else s_bytes(ident), s_short(len(params))] + [s_value(p) for p in params]
+        cl = vc.int('consistency')
+        vc.assume(sym.and_(cl >= 0, cl <= 10))
+        serial = None
+        if pv >= 3 and vc.choice('serial_consistency', [False, True]):     # the session layer cannot send a serial consistency with a v2 batch (no flags in v2)
+            serial = vc.int('serial_cl')
+            vc.assume(sym.or_(serial == 8, serial == 9))
+        ts = None
+        if pv >= 3 and vc.choice('timestamp', [False, True]):
+            ts = vc.int('timestamp_us')
+            vc.assume(cser.in_signed_range(ts, 8))
+        ks = vc.choice('keyspace', [None, KS, ''])
+        bt = vc.int('batch_type')
+        vc.assume(sym.and_(bt >= 0, bt <= 2))
+        msg = vc.obj(protocol.BatchMessage, batch_type=_BT(bt), queries=qs, consistency_level=cl, serial_consistency_level=serial, timestamp=ts, keyspace=ks)
+        f = MBytesIO(b'', 0)
+        k, r = vc.call_catch(PR + 'BatchMessage.send_body', msg, f, pv)
+        if ks and not NP.has_keyspace(pv):
+            vc.check('keyspace/rejected-not-dropped', k == 'exc' and issubclass(exc_class(r), UnsupportedOperation))
+            return
+
+        def body(with_ks):
+            tail = [s_short(cl)]
+            if pv >= 3:
+                flags = (0x10 if serial is not None else 0) | (0x20 if ts is not None else 0) | (0x80 if with_ks is not None else 0)
+                tail.append(s_int(flags) if NP.int_flags(pv) else bytes([flags]))
+                tail += ([s_short(serial)] if serial is not None else []) + ([s_long(ts)] if ts is not None else []) + ([s_string(with_ks)] if with_ks is not None else [])
+            return cat(cser.be_unsigned(bt, 1), s_short(n), *(parts + tail))
+        if ks == '':
+            forms = [body(None)] + ([body('')] if NP.has_keyspace(pv) else [])
+            vc.check('empty-keyspace/flag-and-field-agree', k == 'exc' or sym.or_(*[sym.lift(f.content) == sym.lift(w) for w in forms]))
+            return
+        vc.check('post/encodes', k == 'ok')
+        same(vc, 'post/body-is-the-spec-layout', f.content, body(ks))
+    batch.__doc__ = ('protocol version %#x: ensures BATCH is <type><n><query_1>...<query_n><consistency>[<flags>[<serial_consistency>][<timestamp>][<keyspace>]] with each '
+                     'entry <kind><string or id><n><value_1>...; flags only from v3, [int] flags from v5, one flag bit exactly per field that follows; a keyspace the version cannot carry is rejected' % pv)
+    return batch
+
+
+for _pv in VERSIONS[1:]:
+    _mk_batch(_pv)
 
 
 @harness('C03', 'session-setup-messages', functions=[PR + n + '.send_body' for n in ('StartupMessage', 'OptionsMessage', 'AuthResponseMessage', 'CredentialsMessage',
@@ -346,7 +391,7 @@ def setup_messages(vc):
         vc.call(PR + 'OptionsMessage.send_body', vc.obj(protocol.OptionsMessage), f, pv)
         vc.check('OPTIONS/empty-body', f.content == b'')
     elif which == 'AUTH_RESPONSE':
-        tok = vc.bytes('token')
+        tok = B(vc, 'token')
         vc.call(PR + 'AuthResponseMessage.send_body', vc.obj(protocol.AuthResponseMessage, response=tok), f, pv)
         same(vc, 'AUTH_RESPONSE/bytes', f.content, s_bytes(tok))
     elif which == 'CREDENTIALS':
